@@ -65,7 +65,7 @@ THEOREMS['C02'] = ['FB.C02_rolledBack_frame', 'FB.C02_rolledBack_files', 'FB.C02
                    'FB.Rollback.Undoable.start', 'FB.Rollback.Undoable.mkdir', 'FB.Rollback.Undoable.moveAside', 'FB.Rollback.Undoable.overwrite',
                    'FB.Rollback.Undoable.writeNew', 'FB.Rollback.Undoable.dropOutput', 'FB.Rollback.Undoable.rmEmpty',
                    'FB.Rollback.makeDirs_undoable', 'FB.Rollback.makeRoom_undoable', 'FB.Rollback.Undoable.eraseDir', 'FB.Rollback.undoable_rollback', 'FB.Rollback.steps_undoable', 'FB.Rollback.steps_rollback']
-THEOREMS['C14'] = ['FB.C14_fault_surfaces', 'FB.MakeRoomF.makeRoomF_moved', 'FB.MakeRoomF.makeRoomF_keeps_virtual', 'FB.MakeRoomF.makeRoomF_no_file_lost', 'FB.MakeRoomF.makeRoomF_raw', 'FB.MakeRoomF.makeRoomF_none', 'FB.Rollback.makeRoomF_undoable', 'FB.Rollback.C14_makeRoom_fault_rollback', 'FB.Rollback.C14_makeRoom_fault_rollback_first_step', 'FB.MakeDirsF.makeDirsF_error', 'FB.MakeDirsF.loop_none', 'FB.Rollback.makeDirsF_undoable', 'FB.Rollback.C14_makeDirs_fault_rollback', 'FB.Rollback.C14_makeDirs_fault_rollback_first_step', 'FB.C02_spec_build_raises', 'FB.C02_rolledBack_files', 'FB.MakeDirs.makeDirs_error',
+THEOREMS['C14'] = ['FB.C14_fault_surfaces', 'FB.MakeRoomF.makeRoomF_moved', 'FB.MakeRoomF.makeRoomF_keeps_virtual', 'FB.MakeRoomF.makeRoomF_no_file_lost', 'FB.MakeRoomF.makeRoomF_raw', 'FB.MakeRoomF.makeRoomF_none', 'FB.Rollback.makeRoomF_undoable', 'FB.Rollback.C14_makeRoom_fault_rollback', 'FB.Rollback.C14_makeRoom_fault_rollback_first_step', 'FB.MakeDirsF.makeDirsF_error', 'FB.MakeDirsF.loop_none', 'FB.Rollback.makeDirsF_undoable', 'FB.Rollback.C14_makeDirs_fault_rollback', 'FB.Rollback.C14_makeDirs_fault_rollback_first_step', 'FB.Rollback.makeRoomF_saved_below', 'FB.Rollback.prepare_undoable', 'FB.Rollback.C14_prepare_fault_rollback', 'FB.C02_spec_build_raises', 'FB.C02_rolledBack_files', 'FB.MakeDirs.makeDirs_error',
                    'FB.Rollback.rollBack_restores_files']
 THEOREMS['C03'] = ['FB.C03_impl_build', 'FB.C03_impl_buildGo', 'FB.C03_impl_run_frame', 'FB.replayOp_frame', 'FB.C03_run_frame',
                    'FB.C12_preClean_frame', 'FB.C02_rolledBack_files', 'FB.C12_impl_clean_is_preClean',
@@ -1716,6 +1716,18 @@ def check_C14(tier):
         rep.violation('makeroom_fault_tie', {'property': 'C14', 'kind': 'correspondence-broken',
                                              'no_longer_checks': 'FB.MakeRoomF (makeRoomF_moved, makeRoomF_no_file_lost, makeRoomF_raw) describes FileBuilder._make_room under an injected OSError',
                                              'what': tie[0]}, note='%s: %s' % (tie[0]['what'], json.dumps(tie[0].get('case'))[:160]), no_input=True)
+    # the whole set-up of a build_file (_prepare_file_creation = _make_room where needed, then _make_dirs) with the fault
+    # at every mutating call of either phase (FB.PrepareF: prepare_undoable, C14_prepare_fault_rollback)
+    from . import prcheck
+    probs = prcheck.run(tier, rep, salt=14)
+    for q in [x for x in probs if x.get('oracle')][:2]:
+        rep.violation('prepare_fault', {'property': 'C14', 'kind': 'failing-input', 'what': q}, note=json.dumps(q, default=str)[:250])
+    tie = [x for x in probs if not x.get('oracle')]
+    rep.count('correspondence_disagreements_prepare_fault', len(tie))
+    if tie and not rep.violations:
+        rep.violation('prepare_fault_tie', {'property': 'C14', 'kind': 'correspondence-broken',
+                                            'no_longer_checks': 'FB.PrepareF (prepare_undoable, C14_prepare_fault_rollback) describes FileBuilder._prepare_file_creation under an OSError at any rename, rmdir or mkdir',
+                                            'what': tie[0]}, note='%s: %s' % (tie[0]['what'], json.dumps(tie[0].get('case'))[:160]), no_input=True)
     # _make_dirs with the fault at every mkdir AND every rename that moves an old output aside (FB.MakeDirsF)
     from . import mdcheck
     probs = mdcheck.run(tier, rep, salt=14, faults=True)
